@@ -6,7 +6,10 @@
 (* every call the executor logged the request bytes as sent and as seen by *)
 (* the dispatcher (after any tampering), the dispatcher's status, the      *)
 (* handler log, the reply bytes, what Invoke returned and what was left in *)
-(* both pipes.                                                             *)
+(* both pipes.  With the pipe transport ("calcpipe") caller and dispatcher *)
+(* are two threads connected by real pipes through FdWriter / FdReader;    *)
+(* the same per-call statements apply up to the first failed request,      *)
+(* after which the dispatcher drops the connection.                        *)
 (***************************************************************************)
 EXTENDS Rpc, Json, IOUtils, TLC
 
@@ -21,11 +24,11 @@ Fails(e) ==
   IF e.e \in {"UB", "Crash", "Exc", "Timeout", "BadCmd", "Race"} THEN {"abnormal"}
   ELSE IF e.e # "RPC" THEN {}
   ELSE LET I == Ifaces[e.iface] IN
-       Tag((IF e.iface = "calc" THEN e.hash_calc ELSE e.hash_small) = I.hash, "interface-hash")
+       Tag((IF e.iface \in {"calc", "calcpipe"} THEN e.hash_calc ELSE e.hash_small) = I.hash, "interface-hash")
        \cup (IF Has(e, "sels") /\ IOEnv.PROP # "C10" THEN SelsFail(I, e) ELSE {})
        \cup UnionOver(Len(e.calls), LAMBDA i :
               LET c == e.calls[i] IN
-              IF Has(c, "fault") /\ c.ftrig THEN (IF IOEnv.PROP = "C10" THEN FaultFails(c) ELSE {})
+              IF Has(c, "fault") /\ c.ftrig THEN (IF IOEnv.PROP = "C10" THEN FaultFails(c) ELSE FaultedCallFails(I, c))
               ELSE IF IOEnv.PROP = "C10" THEN {} ELSE CallFails(I, c))
 
 Init == l = 1 /\ nrej = 0
